@@ -12,6 +12,7 @@ import (
 	"sync"
 	"sync/atomic"
 
+	"github.com/zitadel/saml/pkg/provider"
 	"github.com/zitadel/saml/pkg/provider/key"
 	"github.com/zitadel/saml/pkg/provider/models"
 	"github.com/zitadel/saml/pkg/provider/serviceprovider"
@@ -161,8 +162,11 @@ type World struct {
 	Plan    FaultPlan
 	Delay   func(op string) // called inside every storage call (concurrency runs)
 	Lenient bool            // GetEntityByID matches ignoring case / surrounding blanks / trailing slash
-	ReqTag  string          // prefix of generated request ids
-	NoLog   bool
+	// Tenanted scopes service-provider lookups by the issuer found in the request context (multi-tenant
+	// deployments register the same entity ID independently per virtual host).
+	Tenanted bool
+	ReqTag   string // prefix of generated request ids
+	NoLog    bool
 	// UserFor names the user a freshly persisted request belongs to (nil = none).
 	UserFor func(reqID, appID string) string
 	// LoginURL builds the URL the browser is sent to after acceptance.
@@ -344,7 +348,11 @@ func (w *World) GetEntityByID(ctx context.Context, entityID string) (*servicepro
 		return nil, ErrInjected
 	}
 	w.mu.Lock()
-	sp := w.sps[entityID]
+	key := entityID
+	if w.Tenanted {
+		key = provider.IssuerFromContext(ctx) + "|" + entityID
+	}
+	sp := w.sps[key]
 	if sp == nil && w.Lenient {
 		for id, cand := range w.sps {
 			if normEntity(id) == normEntity(entityID) {
@@ -521,4 +529,17 @@ func (w *World) UserByLogin(login string) *User {
 	w.mu.Lock()
 	defer w.mu.Unlock()
 	return w.logins[login]
+}
+
+// AddSPForTenant registers a service provider under one issuer (tenant) only; needs Tenanted.
+func (w *World) AddSPForTenant(issuer, appID string, metadata []byte) error {
+	sp, err := serviceprovider.NewServiceProvider(appID, &serviceprovider.Config{Metadata: metadata}, func(id string) string { return w.LoginURL(id) })
+	if err != nil {
+		return err
+	}
+	w.mu.Lock()
+	w.sps[issuer+"|"+sp.GetEntityID()] = sp
+	w.apps[appID] = sp.GetEntityID()
+	w.mu.Unlock()
+	return nil
 }
